@@ -293,8 +293,10 @@ class C06(BaseCheck):
       jit = jitter_active_since(ev_mark0)
       # cross-check the reference EMA against the balancer's own smoothing
       if abs(lb._ema.value - ema.value) > 1e-6 * max(1.0, ema.value):
+        # The balancer's own smoothed load has drifted from the smoothed number of requests that
+        # are really outstanding.  The property speaks about the latter, so the phase is still
+        # judged with the reference value (the drift itself is only counted).
         stats['ema_crosscheck_mismatch'] += 1
-        healthy = False
       if not healthy or jit or not seen or not ss.truth or min(seen) < 1:
         stats['phases_skipped_unhealthy'] += 1
         continue
